@@ -1042,6 +1042,11 @@ namespace Toy
 /-- the machine after the definition `如何f？ 结束循环` has been executed in a fresh program -/
 def withF : VM Int := (evalStmt 4 fBreaks (programStart (initVM ()))).2
 
+/-- `如何f？ 输出 "x"` -/
+def fReturns : Stmt := .funcDecl 0 (some ⟨0, "f"⟩) 1 (some (.mk [] (some [retX, .nil]) []))
+/-- the machine after that definition has been executed in a fresh program -/
+def withRetF : VM Int := (evalStmt 4 fReturns (programStart (initVM ()))).2
+
 theorem slot_set (s : VM ν) (h : (retSlot s).isSome = true) : retSlot s = some ((retSlot s).getD 0) := by
   cases hs : retSlot s <;> simp_all
 end Toy
